@@ -41,9 +41,22 @@ DEFAULT = ["seqid", "end_inc", "strand", "feature_type"]
 
 
 def crit_fn(spec):
+    """-> f(run so far, feature, number of members of the run so far)"""
+    g = _crit_fn2(spec)
+    if getattr(g, "wants_n", False):
+        return g
+    return lambda a, c, n, g=g: g(a, c)
+
+
+def _crit_fn2(spec):
     if isinstance(spec, str):
         return CRIT[spec]
     name, t = spec
+    if name == "max_members":
+        # a reflexive custom criterion that looks at the run's components
+        f = lambda a, c, n: n < t
+        f.wants_n = True
+        return f
     if name == "end_thr":
         return lambda a, c: a["start"] <= c["start"] <= a["end"] + t
     if name == "start_thr":
@@ -103,7 +116,8 @@ def gen(rng, tier):
         if k == "merge":
             crit = rng.choice([None, None, DEFAULT, ["seqid", "end_inc"], ["end_inc"], ["seqid", "any_inc", "strand"], ["seqid", "exact"],
                                ["seqid", "start_inc", "feature_type"], ["seqid", ["end_thr", rng.choice([0, 2, 3])], "strand", "feature_type"],
-                               ["seqid", ["any_thr", rng.choice([1, 2])]], []])
+                               ["seqid", ["any_thr", rng.choice([1, 2])]], [],
+                               ["seqid", "end_inc", ["max_members", rng.choice([2, 3])]], [["max_members", 2]]])
             order = rng.choice([["seqid", "strand", "featuretype", "start"], ["start"], ["seqid", "start"], ["start", "end"]])
             ops.append({"op": "merge", "criteria": crit, "sel": {"order_by": order, "featuretype": rng.choice([["exon", "CDS"], "exon"])},
                         "save": "m%d" % len(ops)})
@@ -141,7 +155,7 @@ def model_merge(items, criteria):
     runs = []
     acc = None
     for i, f in enumerate(items):
-        if acc is not None and all(fn(acc, f) for fn in fns):
+        if acc is not None and all(fn(acc, f, len(runs[-1])) for fn in fns):
             runs[-1].append(i)
             acc["start"] = min(acc["start"], f["start"])
             acc["end"] = max(acc["end"], f["end"])
@@ -277,6 +291,11 @@ def run(case):
                             V.append(viol("C16.ids", "merged output id %r was already used on this handle" % o["id"], kind="id_reused"))
                             break
                         issued.add(o["id"])
+                        if dict((k_, v_) for k_, v_ in o["attrs"]).get("ID") != [o["id"]]:
+                            # (read after the whole result was collected: outputs must not share state with later ones)
+                            V.append(viol("C16.ids", "merged output %r carries the ID attribute %r" % (o["id"], dict((k_, v_) for k_, v_ in o["attrs"]).get("ID")),
+                                          kind="id_attribute"))
+                            break
                 if V:
                     break
                 # default criteria + start-ordered groups: independent union
